@@ -75,7 +75,7 @@ Complete(c, ln, evs, B, y1) ==
       nB == Len(B)
   IN CASE ln.op \in {"read", "readinto", "readinto_mv"} ->
               IF IsRaw(c) THEN nB > 0 \/ stopS ELSE nB = ln.n \/ stopS
-       [] ln.op \in {"read1", "readinto1"} -> nB > 0 \/ stopS
+       [] ln.op \in {"read1", "readinto1", "peek"} -> nB > 0 \/ stopS
        [] ln.op = "exhaust" -> stopS
        [] ln.op = "readall" -> stopU
        [] LineOp(ln.op) -> EndsLF(B) \/ (ln.n > 0 /\ nB = ln.n) \/ stopU
@@ -136,7 +136,8 @@ OpNext(c, st, ln) ==
   LET u1  == st.upos + Consumed(ln.ev)
       isB == ln.rk = "bytes" \/ (ln.rk = "stop" /\ ln.op = "next")
       B   == IF ln.rk = "bytes" THEN ln.rb ELSE <<>>
-  IN IF isB THEN
+  IN IF isB /\ ln.op = "peek" THEN [ylo |-> st.ylo, upos |-> u1, synced |-> st.synced]   \* peek delivers without consuming
+     ELSE IF isB THEN
           IF st.synced THEN [ylo |-> st.ylo + Len(B), upos |-> u1, synced |-> TRUE]
           ELSE IF MatchEnd(c.data, st.ylo, B, 1, u1) >= 0
                THEN [ylo |-> MatchEnd(c.data, st.ylo, B, 1, u1), upos |-> u1, synced |-> FALSE]
